@@ -353,6 +353,22 @@ ROUND6 = {
 }
 
 
+ROUND7 = {
+ 'C01': 'Round 7: the same words in two global_options calls (gopt_rep); a shared library made only of a whole archive (wa_link).',
+ 'C02': 'Round 7: as C01 (gopt_rep, wa_link).',
+ 'C03': 'Round 7: dual-use libraries (kind dlib: one set of objects, shared and archive half; default()/install() ask for both) and a pre-built source-tree library consumed by link steps (vlib).',
+ 'C06': 'Round 7: scripts with dual-use libraries and a pre-built library file.',
+ 'C07': 'Round 7: recursively searched header_directory; a deleted header takes its empty directory with it.',
+ 'C08': 'Round 7: a change only the extra= side of a search sees; header_directory / directory with dist=False feeding install rules.',
+ 'C09': 'Round 7: later invocations under another machine personality (setarch), cross target in the toolchain file, saved platforms compared; a build tool that is not GNU Make at configure time.',
+ 'C12': 'Round 7: install roots given relative to other install roots (chained base directories).',
+ 'C13': 'Round 7: version ranges in Conflicts / Requires of generated .pc files; scripts with dual-use libraries.',
+ 'C14': 'Round 7: a whole archive next to the same archive forwarded plain.',
+ 'C18': 'Round 7: a vendored header directory searched like a system directory; scripts with a pre-built library file.',
+ 'C19': 'Round 7: a value given, overridden and given again on the command line.',
+}
+
+
 def main():
     props = [json.loads(l) for l in open(os.path.join(VERIF, 'properties.jsonl'))]
     checks = []
@@ -370,7 +386,8 @@ def main():
                 'engine': 'tlc+harness',
                 'level_claimed': {'category': 'model_checking',
                                   'text': c['text'] + (' ' + LATER[pid] if pid in LATER else '') +
-                                          (' ' + ROUND6[pid] if pid in ROUND6 else ''),
+                                          (' ' + ROUND6[pid] if pid in ROUND6 else '') +
+                                          (' ' + ROUND7[pid] if pid in ROUND7 else ''),
                                   'design_ref': 'DESIGN.md section ' + c['design']},
                 'level_note': c['note'],
                 'technique': c['technique'],
